@@ -101,6 +101,12 @@ def run(chk):
         configs.append((xs, n_cpu, comp, mr, mode, k))
     for ncpu_ in (2, 3):
         configs.append((gen.repertoire(rng, 17, minlen=5, maxlen=8, allow_empty=False), ncpu_, 1, None, "custom-half", 2))
+    # (list size, worker count) pairs for which size / n_cpu * n_cpu falls just short of size in doubles: one-substitution families,
+    # so that the LAST sequence has neighbours
+    for n_, ncpu_ in ((15, 11), (15, 13), (30, 13), (49, 11), (61, 7), (61, 14)):
+        root_ = gen.repertoire(rng, 1, minlen=7, maxlen=7, allow_empty=False)[0]
+        fam_ = [root_] + [root_[:i_ % 7] + AA[(i_ * 3) % 20] + root_[i_ % 7 + 1:] for i_ in range(n_ - 2)] + [root_]
+        configs.append((fam_, ncpu_, 1, None, "lev" if n_ != 30 else "ham", 1))
     # anagram families: close in composition, far in edits (max_returns must count TRUE neighbours only)
     for mr in (1, 2, 3):
         configs.append((["SACSD", "CASSD", "CASSE", "CASD", "ACSSD", "CASSD"], rng.choice([1, 3]), rng.choice([1, 4]), mr, "custom-comp", 1))
